@@ -173,6 +173,50 @@ theorem condTableOf_none_iff (g : CondGraph) (p m : List (String × J)) :
         · have := ih.2 ⟨k, hk, hkv⟩
           rw [ht] at this; cases this
 
+/-- more fuel never changes a value that was obtained (the bound only decides definedness) -/
+theorem condValue_mono (g : CondGraph) (p m : List (String × J)) :
+    ∀ (fuel : Nat) (k : String) (b : Bool), condValue g p m fuel k = some b → condValue g p m (fuel + 1) k = some b
+  | 0, _, _, h => by simp [condValue] at h
+  | fuel + 1, k, b, h => by
+    have ih := condValue_mono g p m fuel
+    unfold condValue at h ⊢
+    cases hd : g.defOf k with
+    | none => simp [hd] at h
+    | some d =>
+      simp only [hd, Option.bind_eq_bind, Option.bind_some] at h ⊢
+      have hvis : ∀ (rs : List String) (out : List (String × Bool)),
+          rs.mapM (fun r => (condValue g p m fuel r).map fun b => (r, b)) = some out →
+          rs.mapM (fun r => (condValue g p m (fuel + 1) r).map fun b => (r, b)) = some out := by
+        intro rs
+        induction rs with
+        | nil => intro out h; simpa using h
+        | cons r rs ihr =>
+          intro out h
+          simp only [List.mapM_cons, Option.bind_eq_bind] at h ⊢
+          cases hr : condValue g p m fuel r with
+          | none => simp [hr] at h
+          | some br =>
+            simp only [hr, Option.map_some, Option.bind_some] at h
+            cases hrest : rs.mapM (fun r => (condValue g p m fuel r).map fun b => (r, b)) with
+            | none => simp [hrest] at h
+            | some tl =>
+              simp only [hrest, Option.bind_some] at h
+              simp only [ih r br hr, Option.map_some, Option.bind_some, ihr tl hrest]
+              exact h
+      cases hv : (visibleRefs g k).mapM (fun r => (condValue g p m fuel r).map fun b => (r, b)) with
+      | none => simp [hv] at h
+      | some vis =>
+        simp only [hv, Option.bind_some] at h
+        simp only [hvis _ vis hv, Option.bind_some]
+        exact h
+
+/-- C02_fuel_monotone: a condition value obtained within a step bound is the value under every larger bound -/
+theorem C02_fuel_monotone (g : CondGraph) (p m : List (String × J)) (fuel extra : Nat) (k : String) (b : Bool)
+    (h : condValue g p m fuel k = some b) : condValue g p m (fuel + extra) k = some b := by
+  induction extra with
+  | zero => exact h
+  | succ n ih => exact condValue_mono g p m (fuel + n) k b ih
+
 /-- C02_order: the value of every declared condition is independent of the order in which the conditions
     are declared (for acyclic and cyclic reference graphs alike) -/
 theorem C02_order (defs defs' : List (String × J)) (p m : List (String × J))
